@@ -11,6 +11,10 @@ INSERT statement: exhaustive for k=2 on the fresh database (both tiers; variable
 Thorough tier adds: the same on the prepared database, 300+60 seeded random extended schedules for k=3, a database prepared with 3 rows,
 and an unscheduled stress run (50 rounds x 16 processes, seeded 0..2 ms sleeps at the hook points, released together from a barrier).
 
+Both tiers also: every R/I interleaving of two processes on a database that already holds 1200 sessions (rows copied with sqlite3: result sets beyond
+one fetch chunk of the database layer), and one real-time scenario 'stalled commit' (process 0 is held 12 s - thorough also 20 s on a fresh file - between its
+INSERT and the COMMIT while process 1 creates its session). R is ANY read of the session table outside an insert (len, count, find, find_one, all, iteration).
+
 Oracle (parent side, over the recorded history + the table read with the stdlib sqlite3 module):
   every constructor returned (an exception = session not created successfully); returned session_ids pairwise distinct and distinct
   from the pre-existing rows; the table holds exactly the pre-existing rows plus one row per created session.
@@ -186,6 +190,27 @@ class Env:
             raise RuntimeError("prepared database has unexpected ids %r" % ids)
         self.templates[name] = (path, ids)
 
+    def make_big_template(self, name, base, n):
+        """a database that already holds n sessions: the row written by the real code (template `base`) copied n-1 times with the stdlib sqlite3 module
+        (a long-lived shared database; result sets beyond one fetch chunk of the database layer)"""
+        d = os.path.join(self.dbs, "tmpl_%s" % name)
+        os.mkdir(d)
+        path = os.path.join(d, "s.db")
+        copy_db(self.templates[base][0], path)
+        con = sqlite3.connect(path)
+        try:
+            cols = [r[1] for r in con.execute("PRAGMA table_info(session)")]
+            others = [c for c in cols if c != "id"]
+            sql = "INSERT INTO session (id%s) SELECT ?%s FROM session WHERE id = 0" % ("".join(", " + c for c in others), "".join(", " + c for c in others))
+            con.executemany(sql, [(i,) for i in range(1, n)])
+            con.commit()
+        finally:
+            con.close()
+        ids = read_ids(path)
+        if ids != list(range(n)):
+            raise RuntimeError("prepared database has unexpected ids %r" % ids[:5])
+        self.templates[name] = (path, ids)
+
     def pre_ids(self, state):
         return [] if state == "fresh" else list(self.templates[state][1])
 
@@ -309,6 +334,23 @@ def stress(ctx, env, nproc, nrounds, states, pooled=True):
         ctx.inconclusive("stress run stopped after %d of %d rounds" % (len(rounds), nrounds))
 
 
+def stalled_commit(ctx, env, state, seconds):
+    """injected delay INSIDE a transaction: process 0 executes its INSERT and is then held for `seconds` before the COMMIT (a descheduled process, a slow
+    fsync); process 1 starts one second after process 0 and has to wait for the lock. Both sessions must exist afterwards. (Real time: the only
+    scenario of this check that is not a logical schedule; the hold is far below what the unchanged code tolerates.)"""
+    path = env.new_db(state)
+    rounds = sched.run_unscheduled(env.zy, env.socks, 2, ["sqlite:///" + path], ["R", "I", "X"], "%s/c36-stall" % ctx.seed, 0.0, timeout=seconds * 6 + 120,
+                                   pool=None, stalls={0: {"X": seconds}, 1: {"R": 1.0}})
+    for rd in rounds:
+        rd["schedule"] = "0 held %ds between INSERT and COMMIT, 1 started meanwhile" % seconds
+        if rd["status"] == "ok":
+            ctx.count("stalled_commit_rounds")
+            held = any(p == "X" for res in rd["results"].values() for (p, _w, _t) in res.get("log", []))
+            if not held:
+                ctx.count("stalled_commit_point_not_reached")
+        evaluate(ctx, env, "stalled-commit/%ds/%s" % (seconds, state), 2, state, rd, path, "stress")
+
+
 def outcome_map(results):
     out = {}
     for r in results:
@@ -338,6 +380,7 @@ def run(ctx):
             env.make_template("prepared1", 1)
             if not ctx.quick:
                 env.make_template("prepared3", 3)
+            env.make_big_template("prepared1200", "prepared1", 1200)
         except sched.Watchdog as e:
             ctx.inconclusive("watchdog while preparing: %s" % e)
             return
@@ -346,7 +389,7 @@ def run(ctx):
         all_complete = True
         pooled_results = {}
         for k in (2, 3):
-            for state in states:
+            for state in states + (["prepared1200"] if k == 2 or not ctx.quick else []):
                 cap = 150 if ctx.quick else 1500
                 n, complete, results = exhaustive(ctx, env, k, state, ["R", "I"], "RI", max_runs=cap)
                 pooled_results[(k, state)] = results
@@ -379,7 +422,9 @@ def run(ctx):
         _n, ext_complete, _r = exhaustive(ctx, env, 2, "fresh", ["R", "S", "C", "I"], "RSCI", max_runs=150 if ctx.quick else 600)
         ctx.extra["exhaustive_scope"] = ("exhaustive=true refers to the R/I interleavings for k=2,3 on every database state; "
                                          "extended R/S/C/I enumeration for k=2 on the fresh database complete: %s" % ext_complete)
+        stalled_commit(ctx, env, "prepared1", 12)
         if not ctx.quick:
+            stalled_commit(ctx, env, "fresh", 20)
             exhaustive(ctx, env, 2, "prepared1", ["R", "S", "C", "I"], "RSCI", max_runs=600)
             sampled(ctx, env, 3, "fresh", ["R", "S", "C", "I"], "RSCI", 300)
             sampled(ctx, env, 3, "prepared1", ["R", "S", "C", "I"], "RSCI", 60)
